@@ -254,6 +254,8 @@ def Root.addRule (rt : Root) (r : Rule) : Root × Bool :=
   else if r.kinds = [] then ({ rt with names := r.name :: rt.names }, true)
   else ({ idx := addRuleIdx rt.idx r, names := r.name :: rt.names, indexed := rt.indexed ++ [r] }, false)
 
+def buildIdx (rules : List Rule) : Idx := rules.foldl addRuleIdx (.kind [] [])
+
 def Root.build (rules : List Rule) : Root := rules.foldl (fun rt r => (rt.addRule r).1) {}
 
 def Root.matchEv (rx : Nat → Val → Bool) (rt : Root) (ev : Event) : Out (List Rule) :=
@@ -290,6 +292,14 @@ def Scope.isAllowedAll (sc : Scope) (paths : List (List Seg)) : Bool := paths.al
 
 def Scope.build (defs : List (List Seg × Bool)) : Scope :=
   defs.foldl (fun sc d => sc.add d.2 d.1) Scope.empty
+
+/-- the flag stored for exactly this path (none: no such node, or no flag on it) -/
+def Scope.flagAt : Scope → List Seg → Option Bool
+  | .node f _, [] => f
+  | .node _ ch, s :: rest =>
+    match alookup s ch with
+    | none => none
+    | some c => Scope.flagAt c rest
 
 /-! ## eventProcessor.ProcessEvent -/
 
@@ -333,12 +343,16 @@ def Proc.isTriggering (p : Proc) (ev : Event) : Bool × Proc :=
 /-- `AddEvent` followed by the task: `none` = the event was skipped (nil monitor) -/
 def Proc.addEvent (rx : Nat → Val → Bool) (p : Proc) (sc : Scope) (ev : Event) :
     Option (Out (List Rule)) × Proc :=
-  let (t, p') := p.isTriggering ev
-  if t then (some (processEvent rx p'.root sc ev), p') else (none, p')
+  let r := p.isTriggering ev
+  if r.1 then (some (processEvent rx r.2.root sc ev), r.2) else (none, r.2)
 
 /-- the processor after a history of added events -/
 def Proc.after (rx : Nat → Val → Bool) (sc : Scope) (p : Proc) (hist : List Event) : Proc :=
   hist.foldl (fun p ev => (p.addEvent rx sc ev).2) p
+
+/-- what Go guarantees about a rule: `strings.Split` never returns an empty slice, and the keys of
+    the `StateMatch` map are distinct -/
+def Rule.WF (r : Rule) : Prop := (∀ p ∈ r.kinds, p ≠ []) ∧ ((r.state.getD []).map (·.1)).Nodup
 
 /-! ## the specification -/
 
@@ -365,6 +379,11 @@ def stateOK (rx : Nat → Val → Bool) (r : Rule) (ev : Event) : Bool :=
     | some v => admits rx kp.2 v
     | none => false
 
+/-- how often the index must return rule `x`: once per kind pattern of `x` that matches (and per
+    copy of `x` in the rule list), if the state pattern of `x` admits the event — else not at all -/
+def matchCount (rx : Nat → Val → Bool) (rules : List Rule) (ev : Event) (x : Rule) : Nat :=
+  if stateOK rx x ev then rules.count x * x.kinds.countP (patMatch · ev.kind) else 0
+
 def scopeOK (allowed : List Seg → Bool) (r : Rule) : Bool := r.scope.all allowed
 
 def triggers (rx : Nat → Val → Bool) (allowed : List Seg → Bool) (ev : Event) (r : Rule) : Bool :=
@@ -387,6 +406,11 @@ def firesList (rx : Nat → Val → Bool) (rules : List Rule) (allowed : List Se
 def longest (d : List Seg → Option Bool) : List Seg → Option Bool
   | [] => d []
   | s :: rest => (longest (fun q => d (s :: q)) rest).or (d [])
+
+/-- the flag given to path `q` by the last definition for `q` in a sequence of `Add` calls -/
+def lastDef : List (List Seg × Bool) → List Seg → Option Bool
+  | [], _ => none
+  | d :: rest, q => (lastDef rest q).or (if d.1 = q then some d.2 else none)
 
 end Spec
 
